@@ -137,6 +137,7 @@ func C11(app string, entry EntryFunc, display bool) func(*hx.Ctx) *hx.Outcome {
 		s := c.NewSim()
 		s.ChooseStrategy()
 		s.SetStarveKey([]string{"main.go", "file_handler", "handler.go", "app_core"}[t.D(4)])
+		fineGrained(c, s, o)
 		s.Budget = 200*(len(wire)+32) + 20000
 		atReturn, inflight := -1, 0
 		verdict := s.Run(func() {
@@ -220,6 +221,7 @@ func C10(entry EntryFunc) func(*hx.Ctx) *hx.Outcome {
 		s := c.NewSim()
 		s.ChooseStrategy()
 		s.SetStarveKey([]string{"main.go:1", "main.go", "file_handler", "handler.go"}[t.D(4)])
+		fineGrained(c, s, o)
 		s.Budget = 300*(len(wire)+32) + 30000 + 40*nMsgs
 		returned := false
 		atReturn := -1
@@ -416,6 +418,7 @@ func C16(start func(cfg *lcfg.Config)) func(*hx.Ctx) *hx.Outcome {
 		s := c.NewSim()
 		s.ChooseStrategy()
 		s.SetStarveKey([]string{"main.go:1", "main.go", "main"}[t.D(3)])
+		fineGrained(c, s, o)
 		s.StdinR, s.StdoutW = src, sink
 		s.Budget = 40*(len(data)/maxChunk+len(data)/64+64) + 20000
 		returned := false
